@@ -49,6 +49,93 @@ def _index_ident(it, p, fid, fn, t, args):
     return args[0]
 
 
+def _arg_iter(kind):
+    def model(it, p, fid, fn, t, args):
+        e = sexpr(it, p, args[0])
+        if e is not None and mentions_arg(e):
+            st = p.frames.setdefault(-1, {})
+            reg = dict(st.get("iters", {}))
+            k = len(reg)
+            reg[k] = e
+            st = dict(st)
+            st["iters"] = reg
+            p.frames[-1] = st
+            return Opaque("ARGITER:%s:%d" % (kind, k))
+        return NotImplemented
+    return model
+
+
+def _iter_quant(which):
+    def model(it, p, fid, fn, t, args):
+        a = args[0]
+        n = 0
+        while isinstance(a, Ptr) and n < 6:
+            a = it.deref(p, a)
+            n += 1
+        if isinstance(a, Opaque) and str(a.tag).startswith("ARGITER:") and isinstance(args[1], absint.Closure):
+            _, unit, k = a.tag.split(":")
+            expr = p.frames.get(-1, {}).get("iters", {}).get(int(k))
+            tag = ("quant", which, unit, args[1].defn, expr)
+            return ("fork", [(TRUE, (tag, ("value", 1))), (FALSE, (tag, ("value", 0)))])
+        return NotImplemented
+    return model
+
+
+def _byte_pred(f):
+    def model(it, p, fid, fn, t, args):
+        a = args[0]
+        n = 0
+        while isinstance(a, Ptr) and n < 6:
+            a = it.deref(p, a)
+            n += 1
+        if isinstance(a, Int):
+            return absint.mkbool(f(a.v))
+        return NotImplemented
+    return model
+
+
+CHAR_PREDICATES = {
+    "core::num::<impl u8>::is_ascii_whitespace": _byte_pred(lambda b: b in (0x20, 0x09, 0x0a, 0x0c, 0x0d)),
+    "core::char::methods::<impl char>::is_ascii_whitespace": _byte_pred(lambda b: b in (0x20, 0x09, 0x0a, 0x0c, 0x0d)),
+    "core::char::methods::<impl char>::is_whitespace": _byte_pred(lambda b: chr(b).isspace() and b not in (0x1c, 0x1d, 0x1e, 0x1f)),
+    "core::char::methods::<impl char>::is_ascii": _byte_pred(lambda b: b < 128),
+    "core::num::<impl u8>::is_ascii": _byte_pred(lambda b: b < 128),
+    "core::char::methods::<impl char>::is_control": _byte_pred(lambda b: b < 0x20 or 0x7f <= b < 0xa0),
+    "core::num::<impl u8>::is_ascii_control": _byte_pred(lambda b: b < 0x20 or b == 0x7f),
+    "core::char::methods::<impl char>::is_ascii_control": _byte_pred(lambda b: b < 0x20 or b == 0x7f),
+    "core::num::<impl u8>::is_ascii_graphic": _byte_pred(lambda b: 0x21 <= b <= 0x7e),
+    "core::char::methods::<impl char>::is_ascii_graphic": _byte_pred(lambda b: 0x21 <= b <= 0x7e),
+    "core::char::methods::<impl char>::is_alphanumeric": _byte_pred(lambda b: chr(b).isalnum()),
+    "core::char::methods::<impl char>::is_ascii_alphanumeric": _byte_pred(lambda b: b < 128 and chr(b).isalnum()),
+    "core::num::<impl u8>::is_ascii_alphanumeric": _byte_pred(lambda b: b < 128 and chr(b).isalnum()),
+}
+
+
+def closure_predicate(F, closure_def, unit):
+    """Evaluate a `|c| ..` predicate closure on one character (unit 'chars') or one byte ('bytes'): returns f(str_char)->bool."""
+    g = F.fn(closure_def)
+    if g is None:
+        raise ShapeChanged("predicate closure %s not found" % closure_def)
+    cache = {}
+
+    def on_unit(v, ty):
+        if (v, ty) in cache:
+            return cache[(v, ty)]
+        it = Interp(F, models=CHAR_PREDICATES, max_depth=2, max_paths=8)
+        outs = it.run(g, [absint.Closure(closure_def), Int(v, ty)])
+        vals = {o.value.v for o in outs if o.kind == "return" and isinstance(o.value, Int)}
+        if len(outs) != 1 or len(vals) != 1:
+            raise ShapeChanged("predicate closure is not a decidable function of the character: %r" % (outs,))
+        cache[(v, ty)] = bool(vals.pop())
+        return cache[(v, ty)]
+
+    def pred(ch):
+        if unit == "bytes":
+            return any(on_unit(b, "u8") for b in ch.encode("utf-8"))
+        return on_unit(ord(ch), "char")
+    return pred
+
+
 COMMON = dict(absint.STRING_MODELS)
 COMMON.update({
     "alloc::vec::Vec::new": _vec_new,
@@ -57,6 +144,13 @@ COMMON.update({
     "core::ops::index::Index::index": _index_ident,
     "core::str::<impl str>::chars": absint._ident,
 })
+
+WRITER_MODELS = {
+    "core::str::<impl str>::bytes": _arg_iter("bytes"),
+    "core::str::<impl str>::chars": _arg_iter("chars"),
+    "core::iter::traits::iterator::Iterator::any": _iter_quant("any"),
+    "core::iter::traits::iterator::Iterator::all": _iter_quant("all"),
+}
 
 
 # ---- writer ---------------------------------------------------------------------------------------
@@ -67,6 +161,7 @@ def writer_table(F, fn, args, acc_hint=None):
     `appended` is the sequence of expressions appended (String::push/push_str)
     to any accumulator during the path."""
     models = dict(COMMON)
+    models.update(WRITER_MODELS)
     models[NEXT] = scripted_next([SStr(("arg", "ARG"))])
     it = Interp(F, models=models, max_depth=3, max_paths=256, loop_bound=3)
     outs = it.run(fn, args)
@@ -173,7 +268,9 @@ def reader_table(F, fn, flag_args=None):
                 k = op_const(o)
                 if k and "int" in k:
                     consts.add(chr(int(k["int"])))
-    classes = sorted(consts | {" ", "\t", "\n", "\r", "x", "é", "0"})
+    # representatives of every class the predicates in use can tell apart: the constants compared against, ASCII and
+    # non-ASCII members of char::is_whitespace, a plain ASCII letter, a digit, a non-ASCII letter
+    classes = sorted(consts | {" ", "\t", "\n", "\r", "\x0b", "\x0c", "\u0085", "\u00a0", "\u3000", "x", "é", "0"})
     tab = ReaderTable()
     tab.state_vars = state
     tab.names = [fn.names[l] for l in state]
